@@ -1,0 +1,35 @@
+//go:build verif
+
+package parser
+
+import "github.com/a-h/parse"
+
+// VerifNodeObserver is told about every call of a node parser of templateNodeParser.Parse:
+// which list ("skip" or "node"), the parser's position in it, the input index before and after,
+// and what the parser answered.
+type VerifNodeObserver func(list string, pos int, before, after int, ok bool, err error)
+
+// VerifWrapNodeParsers replaces, in place, every entry of templateNodeSkipParsers and templateNodeParsers
+// by a wrapper that reports to observe, and returns a function that restores the original parsers.
+func VerifWrapNodeParsers(observe VerifNodeObserver) (restore func()) {
+	skips := append([]parse.Parser[Node]{}, templateNodeSkipParsers...)
+	nodes := append([]parse.Parser[Node]{}, templateNodeParsers...)
+	wrap := func(list string, pos int, p parse.Parser[Node]) parse.Parser[Node] {
+		return parse.Func(func(pi *parse.Input) (n Node, ok bool, err error) {
+			before := pi.Index()
+			n, ok, err = p.Parse(pi)
+			observe(list, pos, before, pi.Index(), ok, err)
+			return n, ok, err
+		})
+	}
+	for i, p := range skips {
+		templateNodeSkipParsers[i] = wrap("skip", i, p)
+	}
+	for i, p := range nodes {
+		templateNodeParsers[i] = wrap("node", i, p)
+	}
+	return func() {
+		copy(templateNodeSkipParsers, skips)
+		copy(templateNodeParsers, nodes)
+	}
+}
